@@ -13,9 +13,24 @@ import (
 
 const Layer = "m"
 
+// the parts of package sync that need no cooperation with the scheduler are the real ones (an EDIT of garr may use any of them and
+// must still build)
 type WaitGroup = sync.WaitGroup
-type Mutex = sync.Mutex
 type Once = sync.Once
+type Cond = sync.Cond
+type Map = sync.Map
+type Pool = sync.Pool
+type Locker = sync.Locker
+
+func NewCond(l Locker) *Cond   { return sync.NewCond(l) }
+func OnceFunc(f func()) func() { return sync.OnceFunc(f) }
+
+// Mutex is cooperative like RWMutex (a real mutex would park the only running logical thread for ever): an exclusive RWMutex
+type Mutex struct{ rw RWMutex }
+
+func (m *Mutex) Lock()         { m.rw.Lock() }
+func (m *Mutex) Unlock()       { m.rw.Unlock() }
+func (m *Mutex) TryLock() bool { return m.rw.TryLock() }
 
 type RWMutex struct {
 	real    sync.RWMutex
@@ -90,3 +105,40 @@ func (m *RWMutex) RUnlock() {
 	}
 	lg("runlock", m)
 }
+
+// TryLock / TryRLock never block: one scheduling point, then the outcome of the moment
+func (m *RWMutex) TryLock() bool {
+	if !vsched.LayerOn(Layer) {
+		return m.real.TryLock()
+	}
+	vsched.Point()
+	if m.writer || m.readers > 0 {
+		lg("trylock-fail", m)
+		return false
+	}
+	m.writer = true
+	lg("lock", m)
+	return true
+}
+
+func (m *RWMutex) TryRLock() bool {
+	if !vsched.LayerOn(Layer) {
+		return m.real.TryRLock()
+	}
+	vsched.Point()
+	if m.writer {
+		lg("tryrlock-fail", m)
+		return false
+	}
+	m.readers++
+	lg("rlock", m)
+	return true
+}
+
+type rlocker RWMutex
+
+func (r *rlocker) Lock()   { (*RWMutex)(r).RLock() }
+func (r *rlocker) Unlock() { (*RWMutex)(r).RUnlock() }
+
+// RLocker returns a Locker whose Lock and Unlock are RLock and RUnlock
+func (m *RWMutex) RLocker() Locker { return (*rlocker)(m) }
